@@ -3,7 +3,7 @@ SPEC = dict(
     bin="c04",
     coq_dir="C04",
     coq_pre_cmd="python3 translators/c04_extract.py",
-    coq_targets=["C04/Proofs.vo", "C04/Gen.vo", "C04/Reflect.vo", "C04/Examples.vo"],
+    coq_targets=["C04/Proofs.vo", "C04/Gen.vo", "C04/Reflect.vo", "C04/Examples.vo", "C10/Model.vo", "C04/Codec.vo"],
     allowed_axioms=[],
     level_text=("Unbounded Coq theorems about a schema DSL and generic table codec (scalars of any width, arrays of "
                 "records counted by a field through a transform / constant / to end of data, version- and flag-gated fields, "
